@@ -545,6 +545,7 @@ static unsigned long verif_dump_at[64]; static int verif_dump_nat = 0;
 unsigned long sexp_verif_audit_failures = 0, sexp_verif_forced_gcs = 0;
 int sexp_verif_env_loaded = 0;  /* set by sexp_load_standard_env when it returns */
 static int verif_gc_early = 0;
+static int verif_sweeplog = 0;   /* C10: CHIBI_VERIF_SWEEPLOG=1 logs every sweep's input and result into the trace */
 __thread int sexp_verif_bootstrapping = 0;  /* set by sexp_make_context while it builds a root context */
 
 static void verif_init (void) {
@@ -563,6 +564,7 @@ static void verif_init (void) {
   if ((s = getenv("CHIBI_VERIF_GC_START"))) verif_gc_start = strtoul(s, NULL, 10);  /* no forced collection before this allocation number */
   if ((s = getenv("CHIBI_VERIF_AUDIT"))) verif_audit_on = atoi(s);
   if ((s = getenv("CHIBI_VERIF_TRACE")) && *s) verif_trace = fopen(s, "w");
+  if ((s = getenv("CHIBI_VERIF_SWEEPLOG"))) verif_sweeplog = atoi(s);
   if ((s = getenv("CHIBI_VERIF_DUMP"))) {
     if (!strcmp(s, "all")) verif_dump_all = 1;
     else for ( ; *s && verif_dump_nat < 64; s = (*e ? e+1 : e)) verif_dump_at[verif_dump_nat++] = strtoul(s, &e, 10);
@@ -751,6 +753,37 @@ static void verif_poison_free (sexp ctx) {
       if (r->size > sexp_heap_align(sexp_free_chunk_size))
         verif_poison((char*)r + sexp_heap_align(sexp_free_chunk_size), r->size - sexp_heap_align(sexp_free_chunk_size));
 }
+
+/* C10 sweep log (CHIBI_VERIF_SWEEPLOG=1 with CHIBI_VERIF_TRACE): what sexp_sweep is about to read
+   ("S heap size" then "o off size marked" per object, sizes as the sweep computes them) ... */
+static void verif_sweep_pre (sexp ctx) {
+  sexp_heap h; sexp p, end; sexp_free_list q, r; int hi; size_t size;
+  for (hi = 0, h = sexp_context_heap(ctx); h; h = h->next, hi++) {
+    fprintf(verif_trace, "S %d %lu\n", hi, (unsigned long)h->size);
+    p = sexp_heap_first_block(h); q = h->free_list; end = sexp_heap_end(h);
+    while (p < end) {
+      for (r = q->next; r && ((char*)r < (char*)p); q = r, r = r->next) ;
+      if ((char*)r == (char*)p) { p = (sexp) (((char*)p) + r->size); continue; }
+      size = sexp_heap_align(sexp_allocated_bytes(ctx, p));
+      fprintf(verif_trace, "o %lu %lu %d\n", (unsigned long)((char*)p - (char*)h->data), (unsigned long)size, (int)sexp_markedp(p));
+      if (size == 0) break;
+      p = (sexp) (((char*)p) + size);
+    }
+  }
+  fflush(verif_trace);   /* so that the input of a sweep that crashes or loops is on disk */
+}
+/* ... and what it left: "T heap" then "f off size" per free-list node after the sentinel, in link
+   order, then "R max_freed sum_freed" (sum_freed -1 when the caller did not ask for it) */
+static void verif_sweep_post (sexp ctx, sexp res, size_t *sum_freed) {
+  sexp_heap h; sexp_free_list r; int hi; unsigned long n;
+  for (hi = 0, h = sexp_context_heap(ctx); h; h = h->next, hi++) {
+    fprintf(verif_trace, "T %d %lu %lu\n", hi, (unsigned long)((char*)h->free_list - (char*)h->data), (unsigned long)h->free_list->size);
+    for (n = 0, r = h->free_list->next; r && n < 100000000UL; r = r->next, n++)
+      fprintf(verif_trace, "f %lu %lu\n", (unsigned long)((char*)r - (char*)h->data), (unsigned long)r->size);
+  }
+  fprintf(verif_trace, "R %lu %ld\n", (unsigned long)sexp_unbox_fixnum(res), sum_freed ? (long)*sum_freed : -1L);
+  fflush(verif_trace);
+}
 #endif  /* SEXP_USE_VERIF_HOOKS */
 
 sexp sexp_sweep (sexp ctx, size_t *sum_freed_ptr) {
@@ -863,8 +896,12 @@ sexp sexp_gc (sexp ctx, size_t *sum_freed) {
   if (verif_dumping) verif_dump(ctx, "weak");
 #endif
   finalized = sexp_finalize(ctx);
+#if SEXP_USE_VERIF_HOOKS
+  if (verif_trace && verif_sweeplog) verif_sweep_pre(ctx);
+#endif
   res = sexp_sweep(ctx, sum_freed);
 #if SEXP_USE_VERIF_HOOKS
+  if (verif_trace && verif_sweeplog) verif_sweep_post(ctx, res, sum_freed);
   if (verif_dumping) verif_dump(ctx, "post");
   if (verif_audit_on) verif_audit(ctx);
   if (verif_trace && !verif_dumping) fprintf(verif_trace, "C gc=%lu alloc=%lu\n", (unsigned long)sexp_context_gc_count(ctx), verif_alloc_no);
@@ -894,6 +931,10 @@ sexp_heap sexp_make_heap (size_t size, size_t max_size, size_t chunk_size) {
 #else
   h =  sexp_malloc(sexp_heap_pad_size(size));
   if (! h) return NULL;
+#endif
+#if SEXP_USE_VERIF_HOOKS
+  if (!verif_inited) verif_init();
+  if (verif_trace) fprintf(verif_trace, "N %lu %lu %lu\n", (unsigned long)size, (unsigned long)max_size, (unsigned long)chunk_size);
 #endif
   h->size = size;
   h->max_size = max_size;
@@ -1046,9 +1087,15 @@ void* sexp_alloc (sexp ctx, size_t size) {
              && (total_size - sum_freed) > (total_size*SEXP_GROW_HEAP_RATIO)))
         && ((!h->max_size) || (total_size < h->max_size)))
       sexp_grow_heap(ctx, size, 0);
+#if SEXP_USE_VERIF_HOOKS
+    if (verif_trace) fprintf(verif_trace, "P %lu %lu %lu %lu\n", (unsigned long)max_freed, (unsigned long)sum_freed, (unsigned long)total_size, (unsigned long)h->max_size);
+#endif
     res = sexp_try_alloc(ctx, size);
     if (! res) {
       res = sexp_global(ctx, SEXP_G_OOM_ERROR);
+#if SEXP_USE_VERIF_HOOKS
+      if (verif_trace) fprintf(verif_trace, "X %lu\n", (unsigned long)size);
+#endif
       sexp_debug_printf("ran out of memory allocating %lu bytes => %p", size, res);
     }
   }
